@@ -19,6 +19,7 @@ import PgFdr.Driver.C17
 import PgFdr.Driver.C18
 import PgFdr.Driver.C19
 import PgFdr.Driver.C20
+import PgFdr.Driver.Cli
 /-! Native model driver `pgfdr_model`: all protocol handlers (see `PgFdr/DriverMain.lean`). -/
 open Lean PgFdr PgFdr.Driver
 
@@ -26,6 +27,6 @@ def allHandlers : List (String × (Json → R Json)) :=
   handlersC01 ++ handlersC02 ++ handlersC03 ++ handlersC04 ++ handlersC05 ++
   handlersC06 ++ handlersC07 ++ handlersC08 ++ handlersC09 ++ handlersC10 ++
   handlersC11 ++ handlersC12 ++ handlersC13 ++ handlersC14 ++ handlersC15 ++
-  handlersC16 ++ handlersC17 ++ handlersC18 ++ handlersC19 ++ handlersC20
+  handlersC16 ++ handlersC17 ++ handlersC18 ++ handlersC19 ++ handlersC20 ++ handlersCli
 
 def main : IO Unit := runHandlers allHandlers
